@@ -132,9 +132,19 @@ CHECKS = {
         "technique": "runtime monitoring: exact probe kernels (per-source multiset, polynomial) on target/source trees against the coordinate model and the direct sum; OpenMP target/source executor under the scheduler shim with O-dag/O-seq/P-rec and ASan",
         "claim": "On every explored pair of source/target sets each target accumulated exactly one contribution from each source (model count when periodic), nothing else; source multipoles and target locals equalled the model cell by cell; the OpenMP target/source executor gave bit-identical trees under all explored schedules with all observed conflicts ordered by declared dependencies.",
         "note": "Sources carry no result storage and targets no multipoles by type (NbRhs=0 / void_data), which is observed by the recorder never being handed such an object.",
-        "jobs": [{"bin": "h_sched", "mode": "c09"}],
+        "jobs": [{"bin": "h_fmm", "mode": "c09"}, {"bin": "h_sched", "mode": "c09"}],
         "rule": "case = independent source and target sets (independent / disjoint halves / identical positions / sources in one leaf / targets in one leaf / single source or target) x distributions x geometry x block sizes x both modes; OpenMP executor under the C03 schedule sets (h_sched). non-trivial = more than 3 tasks per schedule (h_sched) / at least one far or near leaf pair (h_fmm); distinct = configuration hash.",
-        "require_events": ["schedules-executed", "tasks-executed", "poly-results-checked"],
+        "require_events": ["schedules-executed", "tasks-executed", "poly-results-checked", "tsm-pairs-checked", "tsm-cells-checked"],
+        "assumptions": [],
+    },
+    "C10": {
+        "level": EXPL,
+        "technique": "runtime monitoring: exact polynomial probe kernel (position-, level- and code-sensitive) against the explicit image sum over the interval the library reports; argument-checking recorder on the real tree and on the periodic top tree; counting kernel; pattern-initialised locals",
+        "claim": "For every explored input, extra-level count -1..5 and box, the documented four-call periodic sequence gave every particle exactly the sum over all particle images in the reported repetition cube (self excluded in the central box only), bit-exactly with a kernel whose value depends on the image displacement; the reported repetition count equalled the interval size.",
+        "note": "The set of images is pinned through a non-symmetric degree-3 polynomial kernel (degree 2 in Dim 4 is not used here), so a wrong window or a wrong displacement changes the value. Trusted: the lattice embedding of the harness and the closed-form image sum.",
+        "jobs": [{"bin": "h_fmm", "mode": "c10"}],
+        "rule": "case = random tree with periodic Morton ordering (Dim 1..3, heights 2..8, any centre/width incl. per-dimension widths, a third of the cases with particles on the box faces/corners), extra levels -1..5 (Dim 3: -1..3), run with Checked<P-poly> (every case), the counting kernel (every 3rd) or the target/source top tree (every 3rd). non-trivial = any; distinct = (input signature, extra levels).",
+        "require_events": ["periodic-runs", "counting-runs", "periodic-tsm-runs", "image-pairs-checked"],
         "assumptions": [],
     },
 }
